@@ -32,6 +32,9 @@ DIRECTED = [
     "stel n = 0; functie tel() { n = n + 1; n } [tel(), tel(), tel()] ",
     "functie f(x) { print(\"f {}\", x); x } f(1) + f(2) * f(3)", "functie f(x) { print(\"f {}\", x); x } f(ja) && f(nee) || f(ja)",
     "functie f(x) { print(\"f {}\", x); x } [f(1), f(2)][f(0)]",
+    "[1.0 / -0.0, 1.0 / 0.0]", "[1.0 / 0.0, 1.0 / -0.0, -0.0, 0.0]", "stel min = -0.0; stel nul = 0.0; print(\"{} {}\", min, nul); 1.0 / min", "[-1.5, 1.5, -(1.5), -7, 7]",
+    "stel a = [0, 0, 0]; stel i = 0; a[i] = (i = 2); [a, i]", "functie p(x) { print(\"p {}\", x); x } stel a = [0, 0]; a[p(1)] = p(7); a", "stel a = [1]; a[lengte(5)] = print(\"te laat\")",
+    "stel n = 0; functie tel() { n = n + 1; n } stel a = [0, 0, 0, 0]; a[n] = tel(); a[n] = tel(); a", "stel lijst = [1, 2, 3]; functie vervang() { lijst = [7, 8, 9]; 0 } lijst[-1] = vervang(); lijst",
     "-(0 - 1152921504606846975 - 1)", "functie f(x) { -x } f(0 - 1152921504606846975 - 1)", "1152921504606846975 + 1", "functie f(x) { x + 1 } f(1152921504606846975)",
     "(0 - 1152921504606846975) - 2", "1152921504606846975 * 2", "(0 - 1152921504606846975 - 1) / (0 - 1)", "7 / 0", "7 % 0", "functie f(x) { x % 0 } f(7)", "functie f(x) { print(\"f {}\", x); x } stel a = [0, 0]; a[f(1)] = f(5); a",
 ]
@@ -71,6 +74,7 @@ def in_f1(ast):
 
 
 def run(ctx, log):
+    progcheck.run_unspecified(ctx, log)
     # enumerated families decided by Sem.v: how function / loop bodies end; names that live in several name spaces
     extra_sem_families = []
     extra_sem_families += progcheck.nested_names_family(ctx.quick)
@@ -79,7 +83,8 @@ def run(ctx, log):
     for s_ in extra_sem_families:
         ctx.seen(("family", s_))
     # the same small programs at every size around the widths the implementation encodes things in (closed-form results)
-    progcheck.run_scale(ctx, log, ['constants', 'locals', 'args', 'statements', 'nesting', 'rtnest', 'objects', 'cyclic', 'alias', 'literal', 'temporaries', 'arity'])
+    progcheck.run_scale(ctx, log, ['constants', 'locals', 'args', 'statements', 'nesting', 'rtnest', 'objects', 'cyclic', 'alias', 'literal', 'temporaries', 'arity', 'names', 'text', 'csc'])
+    progcheck.run_scale_wrapped(ctx, log, ['alias', 'cyclic', 'literal', 'objects', 'temporaries', 'rtnest', 'csc', 'constants', 'locals'])
     progcheck.run_code_boundary(ctx, log)
     rng = ctx.rng
     progs = [open(f, encoding="utf-8").read() for f in sorted(glob.glob(os.path.join(vlib.REPO, "examples", "*.nl"))) if "recursive" not in f]
